@@ -40,7 +40,7 @@ def Allowed (cfg : Cfg) (proto : Proto) (q : Query) (upstream : List EOpt) (x : 
   (∃ c, x = .srvCookie c ∧ sentCookie q = some c) ∨
   (x = .srvNsid cfg.nsid ∧ cfg.nsid ≠ [] ∧ q.hasOption codeNSID = true) ∨
   (x = .srvKeepalive cfg.kaUnits ∧ proto = .tcp ∧ q.hasOption codeKeepalive = true) ∨
-  (∃ d, x = .raw codeEDE d ∧ x ∈ upstream)
+  (x.code = codeEDE ∧ x ∈ upstream)
 
 /-- the options of the OPT a downstream message carried (the one `IsEdns0` sees), unless it is the request's own. -/
 def upstreamOptions (m : Msg) : List EOpt :=
@@ -441,14 +441,7 @@ theorem no_ecs_no_foreign_options (L Lu : Msg → Nat) (cfg : Cfg) (proto : Prot
           simp only [List.mem_filter, Bool.or_eq_true, beq_iff_eq] at hy
           rcases hy.2 with he | he
           · right; right; right
-            cases y with
-            | raw c d =>
-              simp only [EOpt.code] at he
-              subst he
-              exact ⟨d, rfl, by unfold upstreamOptions; rw [hl]; exact hy.1⟩
-            | srvCookie c => simp [EOpt.code, codeCookie, codeEDE] at he
-            | srvNsid d => simp [EOpt.code, codeNSID, codeEDE] at he
-            | srvKeepalive u => simp [EOpt.code, codeKeepalive, codeEDE] at he
+            exact ⟨he, by unfold upstreamOptions; rw [hl]; exact hy.1⟩
           · exact absurd he hne
         · exact fromW y hy hne hnk
   intro o own ho x hx
@@ -466,8 +459,11 @@ theorem no_ecs_in_reply (L Lu : Msg → Nat) (cfg : Cfg) (proto : Proto) (q : Qu
     (hw : WriterFor cfg proto q w) (m : Msg) (o : Opt) (own : Bool)
     (ho : RR.opt o own ∈ (writeMsg L Lu cfg w m).extra) : ∀ x ∈ o.options, x.code ≠ codeECS := by
   intro x hx
-  rcases no_ecs_no_foreign_options L Lu cfg proto q w hw m o own ho x hx with ⟨c, rfl, _⟩ | ⟨rfl, _⟩ | ⟨rfl, _⟩ | ⟨d, rfl, _⟩ <;>
-    simp [EOpt.code, codeCookie, codeNSID, codeKeepalive, codeEDE, codeECS]
+  rcases no_ecs_no_foreign_options L Lu cfg proto q w hw m o own ho x hx with ⟨c, rfl, _⟩ | ⟨rfl, _⟩ | ⟨rfl, _⟩ | ⟨he, _⟩
+  · simp [EOpt.code, codeCookie, codeECS]
+  · simp [EOpt.code, codeNSID, codeECS]
+  · simp [EOpt.code, codeKeepalive, codeECS]
+  · rw [he]; simp [codeEDE, codeECS]
 
 /-- the BADVERS reply carries the request's OPT with version 0 and NO option (the forwarded subnet is stripped). -/
 theorem badvers_reply (L Lu : Msg → Nat) (c : Consts) (cfg : Cfg) (proto : Proto) (q : Query)
@@ -731,7 +727,7 @@ over TCP, and the entry's extended error — nothing else. -/
 theorem writeWire_options (L : Msg → Nat) (cfg : Cfg) (proto : Proto) (q : Query) (w : Writer)
     (hw : WriterFor cfg proto q w) (body r : Msg) (info : WireInfo)
     (hb : ∀ rr ∈ body.extra, rr.isOpt = false)
-    (hede : ∀ e, info.ede = some e → ∃ d, e = .raw codeEDE d)
+    (hede : ∀ e, info.ede = some e → e.code = codeEDE)
     (h : writeWire L cfg w body info = some r) :
     ∀ o own, RR.opt o own ∈ r.extra → ∀ x ∈ o.options,
       Allowed cfg proto q (match info.ede with | some e => [e] | none => []) x := by
@@ -772,8 +768,7 @@ theorem writeWire_options (L : Msg → Nat) (cfg : Cfg) (proto : Proto) (q : Que
         | some e =>
           rw [he] at hx
           simp only [List.mem_singleton] at hx
-          obtain ⟨d, hd⟩ := hede e he
-          exact Or.inr (Or.inr (Or.inr ⟨d, by rw [hx, hd], by rw [hx]; simp⟩))
+          exact Or.inr (Or.inr (Or.inr ⟨by rw [hx]; exact hede e he, by rw [hx]; simp⟩))
 
 /-- **AD discipline on bytes** (given `info.ad` mirrors the body's AD bit — the `WireInfo` contract). -/
 theorem writeWire_ad (L : Msg → Nat) (cfg : Cfg) (proto : Proto) (q : Query) (w : Writer)
@@ -983,5 +978,119 @@ example : writeWire (fun _ => 5000) {} (writerDecoded {} .udp qDO0 (setEdns0 {} 
 -- ParseWire: a plain query with a well-formed subnet is admitted, a scope of 33 is not
 example : (parseWire [0,7, 1,0, 0,1, 0,0, 0,0, 0,1, 1,97,0, 0,1, 0,1, 0, 0,41, 4,208, 0,0,0,0, 0,11, 0,8, 0,7, 0,1,24,0, 1,2,3]).isSome = true := by decide
 example : parseWire [0,7, 1,0, 0,1, 0,0, 0,0, 0,1, 1,97,0, 0,1, 0,1, 0, 0,41, 4,208, 0,0,0,0, 0,11, 0,8, 0,7, 0,1,24,33, 1,2,3] = none := by decide
+
+/-! ### end to end in the model: a cache hit, on bytes and as a message -/
+
+/-- **A byte-path cache hit respects every clause**, with no assumption left
+about the cache's half: for ANY admitted response `m`, any client `q` and its
+writer, whatever `WriteWire` writes echoes the query, carries no OPT unless
+asked, only allowed options (the entry's extended error being the only
+non-server one), AD clear under the rule, no DNSSEC records for DO=0, and over
+UDP fits the negotiated size. -/
+theorem cache_hit_bytes_respects_client (L : Msg → Nat) (cfg : Cfg) (proto : Proto) (q : Query) (w : Writer)
+    (hw : WriterFor cfg proto q w) (m : Msg) (e : WEntry) (b r : Msg) (info : WireInfo)
+    (he : newWEntry m = some e) (hs : serveWireInto e q q.clientDO = some (b, info))
+    (h : writeWire L cfg w b info = some r) :
+    Echoes q r ∧
+    (q.opt = none → ∀ rr ∈ r.extra, rr.isOpt = false) ∧
+    (∀ o own, RR.opt o own ∈ r.extra → ∀ x ∈ o.options,
+      Allowed cfg proto q (match e.ede with | some x => [x] | none => []) x) ∧
+    ((q.cd = true ∨ (q.clientDO = false ∧ q.ad = false)) → r.fl.ad = false) ∧
+    (q.clientDO = false → storedQtype e.stored ≠ typeRRSIG → ∀ rr ∈ r.answer ++ r.ns, rr.isDnssec = false) ∧
+    (proto = .udp → L r ≤ udpLimit q) := by
+  -- what the cache handed over
+  obtain ⟨⟨e1, e2, e3, e4⟩, hiad, _⟩ := cacheWire_echoes e q q.clientDO b info hs
+  have hce : ∃ ce, newCacheEntry m = some ce ∧ e.stored = ce.msg ∧ e.ede = ce.ede := by
+    unfold newWEntry at he
+    cases hn : newCacheEntry m with
+    | none => rw [hn] at he; cases he
+    | some ce =>
+      rw [hn] at he
+      simp only [Option.some.injEq] at he
+      subst he
+      exact ⟨ce, rfl, rfl, rfl⟩
+  obtain ⟨ce, hce1, hst, hed⟩ := hce
+  obtain ⟨hnoopt, hedecode, _⟩ := newCacheEntry_facts m ce hce1
+  have hbx : ∀ rr ∈ b.extra, rr.isOpt = false := by
+    -- the body's additional section is the stored one (stripped or not)
+    have hsub : ∀ rr ∈ b.extra, rr ∈ e.stored.extra := by
+      unfold serveWireInto wireBodyFor at hs
+      split at hs
+      · cases hs
+      · rename_i bb flag hbf
+        simp only [Option.some.injEq, Prod.mk.injEq] at hs
+        obtain ⟨rfl, _⟩ := hs
+        split at hbf
+        · simp only [Option.some.injEq, Prod.mk.injEq] at hbf
+          obtain ⟨rfl, _⟩ := hbf
+          intro rr hrr; exact hrr
+        · cases hstr : e.stripped with
+          | none => rw [hstr] at hbf; cases hbf
+          | some sb =>
+            rw [hstr] at hbf
+            simp only [Option.map_some, Option.some.injEq, Prod.mk.injEq] at hbf
+            obtain ⟨rfl, _⟩ := hbf
+            -- the stripped body is clearDNSSEC of the stored one
+            unfold newWEntry at he
+            rw [hce1] at he
+            simp only [Option.some.injEq] at he
+            subst he
+            simp only at hstr
+            split at hstr
+            · simp only [Option.some.injEq] at hstr
+              subst hstr
+              intro rr hrr
+              simp only at hrr
+              rw [(clearDNSSEC_frame ce.msg).2.2.2.2.2] at hrr
+              exact hrr
+            · cases hstr
+    intro rr hrr
+    have := hsub rr hrr
+    rw [hst] at this
+    exact hnoopt rr this
+  obtain ⟨w1, w2, w3, w4, _, w6, w7⟩ := writeWire_header L cfg w b r info h
+  have hinfoede : info.ede = e.ede := by
+    unfold serveWireInto at hs
+    split at hs
+    · cases hs
+    · simp only [Option.some.injEq, Prod.mk.injEq] at hs
+      obtain ⟨_, rfl⟩ := hs
+      rfl
+  refine ⟨⟨by rw [w1, e1], by rw [w2, e2], by rw [w3, e3], by rw [w4, e4]⟩, ?_, ?_, ?_, ?_, ?_⟩
+  · intro hq; exact writeWire_no_opt L cfg proto q w hw b r info hq hbx h
+  · have := writeWire_options L cfg proto q w hw b r info hbx
+      (by intro x hx; rw [hinfoede, hed] at hx; exact hedecode x hx) h
+    rw [hinfoede] at this
+    exact this
+  · intro hcl; exact writeWire_ad L cfg proto q w hw b r info hiad hcl h
+  · intro hdo ht
+    rw [hdo] at hs
+    exact cache_hit_bytes_no_dnssec L cfg proto q w hw m e b info he hdo ht hs r h
+  · intro hp; subst hp; exact writeWire_udp_bound L cfg q w hw b r info h
+
+/-- **A message-path cache hit echoes the query through the edns handler** —
+the hypothesis of `reply_echo` discharged for the cache (`ToMsg` installs the
+client's own question, 0x20 spelling included, whatever spelling the entry was
+admitted under). -/
+theorem cache_hit_msg_echoes (L Lu : Msg → Nat) (c : Consts) (cfg : Cfg) (proto : Proto) (q : Query)
+    (e : Entry) (r : Msg)
+    (h : serveDNS L Lu c cfg proto q (fun q' => some (toMsg e q')) = some r) : Echoes q r ∨ BareReject q r :=
+  reply_echo L Lu c cfg proto q _ (by intro q' m hm; simp only [Option.some.injEq] at hm; subst hm; exact toMsg_echoes e q') r h
+
+/-- **Over DoQ every reply leaves with ID 0** and is otherwise what the handler wrote. -/
+theorem doq_reply_id_zero (m : Msg) :
+    (doqWriteMsg m).id = 0 ∧ (doqWriteMsg m).opcode = m.opcode ∧ (doqWriteMsg m).fl = m.fl ∧
+    (doqWriteMsg m).question = m.question ∧ (doqWriteMsg m).rcode = m.rcode ∧
+    (doqWriteMsg m).answer = m.answer ∧ (doqWriteMsg m).ns = m.ns ∧ (doqWriteMsg m).extra = m.extra := by
+  simp [doqWriteMsg]
+
+-- non-vacuity: an entry admitted under one spelling (name 7) answers a query in another (name 7 + 65536·5) with the client's
+example : ((newCacheEntry nodata).map (fun e => (toMsg e { qDO0 with question := { qDO0.question with name := 7 + 65536 * 5 } }).question)) =
+    some (some { qDO0.question with name := 7 + 65536 * 5 }) := by decide
+-- non-vacuity: the byte-path hit of that entry for the DO=0 client with cookie: written, echoing, cookie appended
+example : ((newWEntry nodata).bind (fun e => (serveWireInto e qDO0 qDO0.clientDO).bind (fun p =>
+    writeWire (fun _ => 100) {} (writerWire {} .udp qDO0) p.1 p.2))).map (fun r => (r.id, r.ns, r.extra.length)) =
+    some (7, [.data .other 1 40 50], 1) := by decide
+example : (doqWriteMsg { nodata with id := 0x1234 }).id = 0 := rfl
 
 end SdnsVerif.Props.C06
